@@ -207,9 +207,12 @@ fn gen_count(rng: &mut Rng, cap: u32, lenient_kind: u64) -> Option<String> {
 }
 
 fn gen_targets(rng: &mut Rng, strategy: &StrategySpec, lenient_kind: u64) -> Vec<TargetSpec> {
-    let n = match rng.below(20) {
-        0 => 0,
-        1 | 2 => 1,
+    let n = match rng.below(40) {
+        0 | 1 => 0,
+        2..=5 => 1,
+        // a fleet: more targets than any "handful" a component might want to look at
+        6 => rng.range(65, 90) as usize,
+        7 => rng.range(120, 300) as usize,
         _ => rng.range(2, 8) as usize,
     };
     let (field, cap) = match strategy {
@@ -243,7 +246,7 @@ fn gen_targets(rng: &mut Rng, strategy: &StrategySpec, lenient_kind: u64) -> Vec
         let ident = if i > 0 && rng.chance(1, 6) { format!("t{}", rng.usize_below(i)) } else { format!("t{i}") };
         out.push(TargetSpec {
             identifier: ident,
-            address: format!("10.0.{}.{}:{}", rng.below(4), i + 1, 25565 + i),
+            address: format!("10.0.{}.{}:{}", rng.below(4) + 4 * (i as u64 / 250), i % 250 + 1, 25565 + i),
             meta,
         });
     }
